@@ -828,6 +828,7 @@ func (c *Ctx) ord6() {
 	ball := c.acc("ORD-6", off, "breakAll-called")
 	keep := c.acc("ORD-6", off, "pendingAck-kept")
 	order := c.acc("ORD-6", off, "requests-released-after-write-token-exchanged")
+	closedClear := c.acc("ORD-6", off, "closed-client⇒read-state-dropped(next-ReadSlices-reaches-ErrClosed)")
 	intr := c.acc("ORD-6", off, "wait-for-the-write-token-only-after-interrupting-the-writer")
 	for _, p := range c.Paths("ORD-6", off) {
 		// a receive that may have to wait (not an arm of a select with default):
@@ -869,7 +870,23 @@ func (c *Ctx) ord6() {
 			}
 		}
 		if sawClosed {
-			continue // client closed: nothing to do
+			// client closed: no token to exchange, nobody left to release — but the
+			// read routine must not go on with the connection's buffer: with
+			// readConn still set the next ReadSlices skips connect (which is where
+			// ErrClosed comes from) and parses whatever is left in the buffer
+			gone := map[string]bool{}
+			for i := range p.Events {
+				e := &p.Events[i]
+				if e.Kind == pathx.KStore && pathx.IsNilConst(e.Val) {
+					gone[pathx.RoleOfAddr(e.Addr).Key()] = true
+				}
+			}
+			if gone["Client.readConn"] && gone["Client.bufr"] && gone["Client.peek"] && gone["Client.bigMessage"] {
+				closedClear.pass()
+			} else {
+				closedClear.fail(p, last, "toOffline returns on a closed client with the read state in place (readConn cleared: %v, bufr: %v, peek: %v, bigMessage: %v): the next ReadSlices does not reach connect, where ErrClosed is reported, and goes on parsing the buffer of the closed connection", gone["Client.readConn"], gone["Client.bufr"], gone["Client.peek"], gone["Client.bigMessage"])
+			}
+			continue
 		}
 		if iSend < 0 {
 			pend.fail(p, last, "toOffline returns on an open client without depositing a signal into writeSem")
@@ -954,6 +971,7 @@ func (c *Ctx) ord6() {
 	ball.done(1, "breakAll called on every open path")
 	keep.done(0, "no store to pendingAck")
 	intr.done(1, "the blocking receive of the token follows readConn.Close()")
+	closedClear.done(2, "both closed-client exits clear readConn, bufr, peek and bigMessage")
 	order.done(1, "ping drain and breakAll follow the deposit of connPending")
 }
 
